@@ -13,16 +13,17 @@ pub(crate) type Sk = <ElGamal as Nike>::SecretKey;
 pub(crate) type Pk = <ElGamal as Nike>::PublicKey;
 pub(crate) type Dk = <MlKem as Kem>::DecapsulationKey;
 pub(crate) type Ek = <MlKem as Kem>::EncapsulationKey;
+pub(crate) type KemEnc = <MlKem as Kem>::Encapsulation;
 
 /// Symbolic scalar of the toy field (type invariant `< P` as a precondition).
 pub(crate) fn any_sk() -> Sk {
     let x: u8 = kani::any();
-    kani::assume(x < 251);
+    kani::assume((x as u32) < crate::core::nike::toy_p());
     Sk { 0: x }
 }
 pub(crate) fn any_pk() -> Pk {
     let x: u8 = kani::any();
-    kani::assume(x < 251);
+    kani::assume((x as u32) < crate::core::nike::toy_p());
     Pk { 0: x }
 }
 pub(crate) fn sk(x: u8) -> Sk {
@@ -37,7 +38,7 @@ pub(crate) fn hybrid(x: u8, d: u8) -> RightSecretKey {
 /// Symbolic right secret key of the given flavour.
 pub(crate) fn any_rsk(hybridized: bool) -> RightSecretKey {
     let x: u8 = kani::any();
-    kani::assume(x < 251);
+    kani::assume((x as u32) < crate::core::nike::toy_p());
     if hybridized {
         hybrid(x, kani::any())
     } else {
@@ -56,9 +57,9 @@ pub(crate) fn sid(k: &RightSecretKey) -> (bool, u8, u8) {
     }
 }
 
-pub(crate) fn any_u251() -> u8 {
+pub(crate) fn any_fe() -> u8 {
     let x: u8 = kani::any();
-    kani::assume(x < 251);
+    kani::assume((x as u32) < crate::core::nike::toy_p());
     x
 }
 /// Tracing secret key without tracer nor user.
@@ -140,4 +141,157 @@ pub(crate) fn ll_at<T>(l: &LList<T>, i: usize) -> Option<&T> {
         k += 1;
     }
     cur
+}
+
+// ---------------------------------------------------------------------------
+// loop-free views
+// ---------------------------------------------------------------------------
+
+/// master chain of `r` (first four elements, newest first); all `None` when the right is absent
+pub(crate) fn mchain(msk: &MasterSecretKey, r: &Right) -> [Option<(bool, RightSecretKey)>; 4] {
+    match msk.secrets.get(r) {
+        Some(l) => view4(l),
+        None => [None, None, None, None],
+    }
+}
+pub(crate) fn mulp(a: u8, b: u8) -> u8 {
+    ((a as u32 * b as u32) % crate::core::nike::toy_p()) as u8
+}
+pub(crate) fn addp(a: u8, b: u8) -> u8 {
+    ((a as u32 + b as u32) % crate::core::nike::toy_p()) as u8
+}
+/// n-th chain of a user key (insertion order), loop-free for n < 3
+pub(crate) fn uchain(usk: &RevisionVec<Right, RightSecretKey>, n: usize) -> Option<(Right, [Option<RightSecretKey>; 4])> {
+    let mut it = usk.iter();
+    let a = it.next();
+    let b = it.next();
+    let c = it.next();
+    let sel = if n == 0 { a } else if n == 1 { b } else { c };
+    sel.map(|(k, l)| (k.clone(), view4(l)))
+}
+pub(crate) fn hint(h: bool) -> crate::abe_policy::EncryptionHint {
+    if h { crate::abe_policy::EncryptionHint::Hybridized } else { crate::abe_policy::EncryptionHint::Classic }
+}
+pub(crate) fn status(enc: bool) -> crate::abe_policy::AttributeStatus {
+    if enc { crate::abe_policy::AttributeStatus::EncryptDecrypt } else { crate::abe_policy::AttributeStatus::DecryptOnly }
+}
+/// user id view: first three markers
+pub(crate) fn id_view(id: &UserId) -> [Option<u8>; 3] {
+    let mut it = id.0.iter();
+    let a = it.next().map(|x| x.0);
+    let b = it.next().map(|x| x.0);
+    let c = it.next().map(|x| x.0);
+    [a, b, c]
+}
+
+// ---------------------------------------------------------------------------
+// TracingSecretKey (C17)
+// ---------------------------------------------------------------------------
+
+// @obl props=C17,C16 tier=quick class=bounded fn=core::TracingSecretKey::generate_user_id shape="2 tracers (tracing level 1), all scalars symbolic over the toy field Z_13"
+kproof! {
+    #[kani::unwind(8)]
+    fn tsk__generate_user_id_relation() {
+        let mut rng = SymRng;
+        let (s, t0, t1): (u8, u8, u8) = (any_fe(), any_fe(), any_fe());
+        kani::assume(t1 != 0);
+        let mut tsk = mk_tsk(s, &[t0, t1]);
+        let id = ok_or_forget(tsk.generate_user_id(&mut rng));
+        assert!(id.is_some(), "C17: an identifier can be generated whenever the last tracer is invertible");
+        let id = id.unwrap();
+        let v = id_view(&id);
+        assert!(v[0].is_some() && v[1].is_some() && v[2].is_none(), "C17: one marker per tracer");
+        assert!(addp(mulp(v[0].unwrap(), t0), mulp(v[1].unwrap(), t1)) == s, "C17: sum of marker_i * tracer_i equals the binding scalar, for all field elements");
+        assert!(tsk.users.len() == 1 && tsk.is_known(&id), "C17: the new identifier is recorded");
+        assert!(tsk._validate_user_id(&id), "C17: the identifier validates against the tracers");
+        std::mem::forget(tsk);
+        std::mem::forget(id);
+    }
+}
+
+// @obl props=C17,C09 tier=quick class=bounded fn=core::TracingSecretKey::refresh_id shape="2 tracers; known id of same level / unknown id"
+kproof! {
+    #[kani::unwind(8)]
+    fn tsk__refresh_id_known_unknown() {
+        let mut rng = SymRng;
+        let mut tsk = mk_tsk(any_fe(), &[any_fe(), 1]);
+        let (a, b, c): (u8, u8, u8) = (any_fe(), any_fe(), any_fe());
+        kani::assume(c != a);
+        let mk = |x: u8, y: u8| { let mut l = LList::new(); l.push_back(sk(x)); l.push_back(sk(y)); UserId(l) };
+        tsk.add_user(mk(a, b));
+        let kept = ok_or_forget(tsk.refresh_id(&mut rng, mk(a, b)));
+        assert!(kept.is_some(), "C09/C17: a known identifier is accepted");
+        assert!(id_view(&kept.unwrap()) == [Some(a), Some(b), None], "C17: an identifier of the current tracing level is returned unchanged");
+        assert!(tsk.users.len() == 1 && tsk.is_known(&mk(a, b)), "C17: the set of known identifiers is unchanged");
+        let e = err_kind(tsk.refresh_id(&mut rng, mk(c, b)));
+        assert!(e == E_TRACING, "C09/C17: an identifier the master key does not know is refused (Tracing)");
+        assert!(tsk.users.len() == 1 && tsk.is_known(&mk(a, b)) && !tsk.is_known(&mk(c, b)), "C10/C17: a refused identifier changes nothing");
+        std::mem::forget(tsk);
+    }
+}
+
+// @obl props=C17,C01 tier=quick class=proved fn=core::TracingSecretKey::set_traps shape="2 tracers; also tpk, binding_point, UserSecretKey::set_traps, MasterPublicKey::set_traps"
+kproof! {
+    #[kani::unwind(8)]
+    fn tsk__traps_tpk_binding_point() {
+        let (s, t0, t1, r): (u8, u8, u8, u8) = (any_fe(), any_fe(), any_fe(), any_fe());
+        let tsk = mk_tsk(s, &[t0, t1]);
+        let c = tsk.set_traps(&sk(r));
+        assert!(c.len() == 2 && c[0].0 == mulp(t0, r) && c[1].0 == mulp(t1, r), "C01/C17: trap_i = P_i * r for every tracer, in order");
+        let tpk = tsk.tpk();
+        let mut it = tpk.0.iter();
+        assert!(it.next().map(|p| p.0) == Some(t0) && it.next().map(|p| p.0) == Some(t1) && it.next().is_none(), "C17: tpk lists the public tracers in order");
+        assert!(tsk.binding_point().0 == s, "C01: the binding point is s.G");
+        assert!(tsk.tracing_level() == 1 && tpk.tracing_level() == 1, "C17: tracing level = number of tracers - 1");
+        let usk = UserSecretKey { id: UserId(LList::new()), ps: vec![Pk { 0: t0 }, Pk { 0: t1 }], secrets: RevisionVec::new(), signature: None };
+        let cu = usk.set_traps(&sk(r));
+        assert!(cu.len() == 2 && cu[0].0 == mulp(t0, r) && cu[1].0 == mulp(t1, r), "C01: a user key recomputes the same traps from its tracing points");
+        let mpk = MasterPublicKey { tpk, encryption_keys: HashMap::new(), access_structure: AccessStructure::new() };
+        let cm = mpk.set_traps(&sk(r));
+        assert!(cm.len() == 2 && cm[0].0 == mulp(t0, r) && cm[1].0 == mulp(t1, r), "C01: the public key computes the same traps");
+        assert!(mpk.tracing_level() == 1, "C17: tracing level of the public key");
+        std::mem::forget(tsk);
+        std::mem::forget(mpk);
+    }
+}
+
+// @obl props=C11,C01 tier=quick class=proved fn=core::RightSecretKey::cpk shape="both flavours; random, is_hybridized, drop_hybridization"
+kproof! {
+    #[kani::unwind(8)]
+    fn rsk__flavour_and_public_key() {
+        let mut rng = SymRng;
+        let (h, x, d): (u8, u8, u8) = (any_fe(), any_fe(), kani::any());
+        match hybrid(x, d).cpk(&Pk { 0: h }) {
+            RightPublicKey::Hybridized { H, ek } => assert!(H.0 == mulp(h, x) && ek.0 == d, "C01/C11: cpk of a hybridized secret = (h.sk, ek(dk))"),
+            _ => assert!(false, "C11: cpk preserves the flavour"),
+        }
+        match classic(x).cpk(&Pk { 0: h }) {
+            RightPublicKey::Classic { H } => assert!(H.0 == mulp(h, x), "C01: cpk of a classic secret = h.sk"),
+            _ => assert!(false, "C11: cpk preserves the flavour"),
+        }
+        assert!(hybrid(x, d).is_hybridized() && !classic(x).is_hybridized(), "C11: is_hybridized tells the flavour");
+        assert!(hybrid(x, d).drop_hybridization() == classic(x) && classic(x).drop_hybridization() == classic(x), "C11: dropping hybridization keeps the scalar and removes the KEM key");
+        let a = ok_or_forget(RightSecretKey::random(&mut rng, true)).unwrap();
+        let b = ok_or_forget(RightSecretKey::random(&mut rng, false)).unwrap();
+        assert!(a.is_hybridized() && !b.is_hybridized(), "C11: a fresh secret has the requested flavour");
+        assert!(RightPublicKey::Hybridized { H: Pk { 0: h }, ek: Ek { 0: d } }.is_hybridized() && !RightPublicKey::Classic { H: Pk { 0: h } }.is_hybridized(), "C11: public flavour");
+    }
+}
+
+// @obl props=C14 tier=quick class=proved fn=core::XEnc::tracing_level shape="empty sequences: XEnc, UserId, TracingPublicKey, TracingSecretKey; XEnc::count"
+kproof! {
+    #[kani::unwind(8)]
+    fn accessors__no_underflow_on_empty() {
+        let enc = XEnc { tag: kani::any(), c: Vec::new(), encapsulations: Encapsulations::CEncs(Vec::new()) };
+        assert!(enc.tracing_level() == 0 && enc.count() == 0, "C14: accessors of an encapsulation without trap do not underflow");
+        let usk = UserSecretKey { id: UserId(LList::new()), ps: Vec::new(), secrets: RevisionVec::new(), signature: None };
+        assert!(usk.tracing_level() == 0, "C14: accessors of a user key without marker do not underflow");
+        let mpk = MasterPublicKey { tpk: TracingPublicKey(LList::new()), encryption_keys: HashMap::new(), access_structure: AccessStructure::new() };
+        assert!(mpk.tracing_level() == 0, "C14: accessors of a public key without tracer do not underflow");
+        let tsk = mk_tsk0(1);
+        assert!(tsk.tracing_level() == 0, "C14: accessors of a tracing key without tracer do not underflow");
+        let enc2 = XEnc { tag: kani::any(), c: vec![Pk { 0: 1 }, Pk { 0: 2 }], encapsulations: Encapsulations::HEncs(vec![(KemEnc { 0: 1 }, [0u8; 32])]) };
+        assert!(enc2.tracing_level() == 1 && enc2.count() == 1, "C17: tracing level and count of a regular encapsulation");
+        std::mem::forget(mpk);
+    }
 }
